@@ -363,6 +363,16 @@ func (c *ShadowStreamConn) writeToShadowStreamConn(w *ShadowStreamConn) (n int64
 	writeBuf := w.writeBuf
 	readBuf := writeBuf[2+tagSize : 2+tagSize]
 
+	// Forward the bytes left in the read buffer by a previous Read call first.
+	if c.readStart < len(c.readBuf) {
+		leftover := c.readBuf[c.readStart:]
+		if err := w.write(writeBuf, leftover); err != nil {
+			return 0, err
+		}
+		c.readStart = len(c.readBuf)
+		n = int64(len(leftover))
+	}
+
 	for {
 		nr, err := c.read(readBuf)
 		if err != nil {
@@ -412,6 +422,16 @@ func (c *ShadowStreamConn) Read(b []byte) (n int, err error) {
 
 // WriteTo implements [io.WriterTo].
 func (c *ShadowStreamConn) WriteTo(w io.Writer) (n int64, err error) {
+	// Deliver the bytes left in the read buffer by a previous Read call first.
+	if c.readStart < len(c.readBuf) {
+		nw, err := w.Write(c.readBuf[c.readStart:])
+		c.readStart += nw
+		n = int64(nw)
+		if err != nil {
+			return n, err
+		}
+	}
+
 	b := c.getReadBuf()
 
 	for {
